@@ -3,6 +3,7 @@
 
      D <Kind> <fields>              constructor defaults of a record type (what a field holds that Parse
                                     does not assign)                                   -> D
+     U                              -> U <fields…>: the fields unrecognised checks (CUnknown) mention, all record types
      T <hex text> <Kind> <Field>    a text; Kind/Field = the record type and field the harness varied
                                     ("-" when the case is not a single-field change)
         -> ERR <r><b>                                the model's reader reports an error; r = 1: the text read with
@@ -68,6 +69,10 @@ let () =
     | ["D"; kind; fields] ->
       Hashtbl.replace defaults kind (List.map parse_field (String.split_on_char ',' fields));
       print_endline "D"
+    | ["U"] ->
+      (* every field some unrecognised check mentions, whatever the record type *)
+      let fs = List.concat_map (fun (_, rs) -> List.concat_map (fun (_, c) -> unknown_fields c) rs) all_rules in
+      print_endline (String.concat " " ("U" :: List.sort_uniq compare fs))
     | ["T"; h; kind; field] ->
       (match read_text_valid all_layouts all_rules gen_tables (bytes_of_hex h) with
        | Some (f, lg) ->
